@@ -37,11 +37,11 @@ type snap struct {
 type G struct {
 	bytesA []int // cache BYTE length of every window of the last plotRun, pass A / pass B
 	bytesB []int
-	nbuf  int
-	h     *hx.H
-	focus string
-	root  string
-	nrun  int
+	nbuf   int
+	h      *hx.H
+	focus  string
+	root   string
+	nrun   int
 }
 
 func key(i int) *pocec.PublicKey {
@@ -75,6 +75,7 @@ type fileState struct {
 	cpA, cpB    uint64
 	hasA        bool
 	plotted     bool
+	rawMismatch string // the opened map's progress / readiness disagrees with the checkpoint recorded in the file
 	bl          int
 	recordBytes int
 }
@@ -120,6 +121,15 @@ func readState(dir string, pk *pocec.PublicKey, bl int) fileState {
 		st.cpB = uint64(cp)
 		st.plotted = mdb.Ready()
 		mdb.HashMapB.Close()
+		// the recorded progress, read off the header block itself: plotted = checkpoint (half-indices) reached half the volume
+		if raw := readRawFile(pathB); raw.ok {
+			rawCp := le64(raw.hdr[massdb_v1.PosCheckpoint:])
+			st.rawMismatch = ""
+			if rawCp != st.cpB || st.plotted != (rawCp >= n/2) {
+				st.rawMismatch = fmt.Sprintf("the header of map B records checkpoint %d of %d; the opened map reports checkpoint %d, plotted=%v", rawCp, n/2, st.cpB, st.plotted)
+			}
+			st.cpB, st.plotted = rawCp, rawCp >= n/2
+		}
 	}
 	return st
 }
@@ -432,6 +442,10 @@ func sameU(a, b []uint64) bool {
 // checkFinal: C07 oracle on a completed plot.
 func (g *G) checkFinal(what string, st fileState, r ref, pk *pocec.PublicKey, bl int, replay []string) {
 	g.h.Res.OracleEvals++
+	if st.rawMismatch != "" {
+		g.h.FailWith("C07:progress-misread", what+": "+st.rawMismatch, replay)
+		g.h.FailWith("C10:progress-misread", what+": "+st.rawMismatch, replay)
+	}
 	if !st.plotted {
 		g.h.FailWith("C07:plot-incomplete", what+": the plot returned but the space does not report plotted", replay)
 		return
@@ -532,6 +546,9 @@ func main() {
 			stopAt := h.Rng.Intn(1 + 2*(len(usedA)+len(usedB)))
 			_, o1, _, _ := g.plotRun(d, pk, bl, wa, wb, false, stopAt, 30*time.Second)
 			mid := readState(d, pk, bl)
+			if mid.rawMismatch != "" {
+				h.FailWith("C07:progress-misread", "after a stopped plot: "+mid.rawMismatch, []string{"# " + desc})
+			}
 			wa2, wb2 := g.sizes(n, false), g.sizes(n, true)
 			_, o2, _, _ := g.plotRun(d, pk, bl, wa2, wb2, false, -1, 30*time.Second)
 			after := readState(d, pk, bl)
@@ -602,7 +619,6 @@ func main() {
 	}
 	h.Finish("real massdb.v1 plots at bit lengths 8-12, several public keys, forced cache sizes (1-8 windows per pass, odd/even/exact/oversized); C10: every named point of both passes is snapshotted and resumed with other sizes, plus graceful stops; distinct = distinct (line, output) pairs")
 }
-
 
 // ---- byte level (Model/PlotFile.lean): the two files as they are on disk
 
